@@ -13,7 +13,17 @@ Oracle   : `reference()` - a small model written from the send_* docstrings (and
            Lock probe after every next(): `ae._lock.acquire(blocking=False)` from the calling thread, and (once per
            case) a second association of the same AE must complete a C-ECHO while the iterator is suspended.
            Clean failure: no exception reaches the caller, nothing hangs (watchdog), and when the reference says the
-           association is still established a following C-ECHO + release() (or a peer initiated release) succeed.
+           association is still established a following C-ECHO + release() (or a peer initiated release) succeed;
+           after a peer A-ABORT / close / DIMSE timeout the association thread ends.
+           A tap on Association._serve_request tells when the association reactor (not the calling send_* method) took
+           a response off the DIMSE queue; six "valid-delayed-threads" cases per repetition add two pure scheduling
+           delays (reactor thread late after its checkpoint wait(), caller late between send_msg and get_msg).
+Keys     : <op>|<category>|<what> (e.g. find|undecodable-identifier|yielded-twice), <op>|lock-held-while-suspended|<cat>,
+           <op>|second-association-blocked-while-suspended|<cat>, wrong-type|<op>|accepted-as-response|exception-escaped|..,
+           reactor-consumed-response|delays-injected|natural, followup|echo-failed|release-failed|peer-release-unanswered|..,
+           <op>|<cat>|hang|<phase>.
+A case with violations is re-run once at once; only keys seen in both runs are reported (else inconclusive), except
+the reactor tap which is a definite observation.
 """
 from __future__ import annotations
 
@@ -47,6 +57,11 @@ ASSUMPTIONS = [
     "behaviour after extra responses behind the final one; MessageIDBeingRespondedTo mismatch.",
     "All contexts use Implicit VR Little Endian; identifiers are hand-encoded by struct.",
     "Hang verdicts need two identical stack snapshots 1 s apart of the calling thread, else the case is inconclusive.",
+    "DIMSE timeout 0.4 s only in streams that contain silence, 2.5 s elsewhere (those never wait for it); a case with "
+    "violations is re-run once and only reproduced mechanism keys count (unreproduced => inconclusive).",
+    "The scripted acceptor runs in the worker process (threads): response latency is loopback + GIL scheduling.",
+    "Consumption modes: exhaust (like a for loop) and drop (caller stops at the first non-Pending and discards the "
+    "iterator); abandoning an iterator at a Pending response is not exercised (C-CANCEL is property C23's).",
 ]
 WORKERS = {"quick": 16, "thorough": 16}
 REQUIRE = {
@@ -825,7 +840,7 @@ class Caller(threading.Thread):
         if op in ITER_OPS:
             it = r
             idx = 0
-            probed2 = False
+            probed2 = probed_held = False
             while True:
                 self.phase = "next-%d" % idx
                 try:
@@ -835,8 +850,9 @@ class Caller(threading.Thread):
                 self._record(status, ident)
                 self.phase = "probe-%d" % idx
                 ok = self.probe_lock(idx)
-                if not probed2 and (idx >= case["probe_at"] or not ok):
+                if (not probed2 and idx >= case["probe_at"]) or (not ok and not probed_held):
                     probed2 = True
+                    probed_held = probed_held or not ok
                     self.probe_second_assoc(idx, budget=2.5 if ok else 1.2)
                 st = getattr(status, "Status", None)
                 if case["mode"] == "drop" and (st is None or ref_category(st) != "Pending") and not (
